@@ -13,6 +13,8 @@ echo "|---|---|---|---|" >> $out.tmp
 for d in seeded/*/; do
   id=$(basename $d)
   [ -n "${1:-}" ] && [[ "$id" != $1* ]] && { grep "^| $id " $out >> $out.tmp 2>/dev/null; continue; }
+  # ONLY_MISSING=1: keep the rows already in RESULTS.md, run only the seeds that have none
+  [ -n "${ONLY_MISSING:-}" ] && grep -q "^| $id " $out 2>/dev/null && { grep "^| $id " $out >> $out.tmp; continue; }
   prop=$(python3 -c "import json;print(json.load(open('$d/meta.json'))['property'])")
   git -C $WT apply /verif/$d/patch.diff || { echo "| $id | $prop | PATCH DOES NOT APPLY | |" >> $out.tmp; continue; }
   /verif/bin/gosym check $prop --tier $TIER --no-evidence --repo $WT > /tmp/seedrun.log 2>&1; rc=$?
